@@ -293,10 +293,13 @@ def h_resp_cmdt(ex, prop, L, windows='sym', session=0, prefix=None):
 
 
 # --------------------------------------------------------------------------- BAM
-def h_orig_bam(ex, prop, L, interval=None, other_interval=None):
+def h_orig_bam(ex, prop, L, interval=None, other_interval=None, timer=None):
     c03, c09 = prop == 'C03', prop == 'C09'
     tag = 'c03' if c03 else 'c09'
     w, n, ca, rx = mk_world(ex, 1, bam_interval=interval, rts_cts_interval=other_interval)
+    if timer is not None:
+        # an unrelated periodic application timer served by the same job thread: the pacing must not depend on it
+        n.ecu.add_timer(Fraction(timer), lambda cookie: (w.callback_fired(), True)[1])
     dp = ex.fresh_int('dp', 0, 1)
     prio = ex.fresh_int('prio', 0, 7)
     pf = ex.fresh_int('pf', 240, 255)
@@ -428,6 +431,7 @@ def jobs(prop, tier):
     if prop == 'C09':
         J('h_orig_bam_busy', L=250, burst=12)
         J('h_orig_bam_two', L=181)
+        J('h_orig_bam', L=301, interval='1/10', timer='2/5')
         J('h_orig_bam_two', L=121, interval='1/10', phase='3/100', mpg_limit='1/25')
         J('h_orig_cmdt', L=181, interval='1/20', other_interval='1/200')
         J('h_orig_bam', L=181, interval='1/20', other_interval='1/200')
